@@ -7,6 +7,7 @@ import SvgVerif.Model.CubicCache
 import SvgVerif.Model.InvArc
 import SvgVerif.Model.Parser
 import SvgVerif.Model.Lexer
+import SvgVerif.Model.Serializer
 /-! Correspondence driver: one operation per input line, one canonical result per
 output line.  Run as `lake env lean --run Driver.lean < ops.txt`.  The Python
 harness feeds the same operations to the real svgpathtools code and diffs. -/
@@ -196,6 +197,51 @@ def runLex (ws : List String) : String :=
       | .num s => String.ofList s)
   | none => "bad-args"
 
+/-! C01: serializer at token level -/
+open SvgVerif.Model.Parser in
+def parseSegWords : List String → Option (Seg Rat)
+  | ["L", a, b, c, d] => do pure (.line (← parseRat? a, ← parseRat? b) (← parseRat? c, ← parseRat? d))
+  | ["Q", a, b, c, d, e, f] => do
+      pure (.quad (← parseRat? a, ← parseRat? b) (← parseRat? c, ← parseRat? d) (← parseRat? e, ← parseRat? f))
+  | ["C", a, b, c, d, e, f, g, h] => do
+      pure (.cubic (← parseRat? a, ← parseRat? b) (← parseRat? c, ← parseRat? d) (← parseRat? e, ← parseRat? f)
+        (← parseRat? g, ← parseRat? h))
+  | ["A", a, b, rx, ry, rot, l, sw, e, f] => do
+      pure (.arc (← parseRat? a, ← parseRat? b) (← parseRat? rx, ← parseRat? ry) (← parseRat? rot) (l == "1") (sw == "1")
+        (← parseRat? e, ← parseRat? f))
+  | _ => none
+
+open SvgVerif.Model.Parser SvgVerif.Model.Serializer SvgVerif.Spec.SvgPath in
+def showCmdToks (c : Cmd Rat) : String :=
+  let pt (p : Pt Rat) := s!"{showRat p.1} {showRat p.2}"
+  let l (ch : Char) (a : Bool) := "c" ++ String.singleton (if a then ch else ch.toLower)
+  match c with
+  | .M a p => s!"{l 'M' a} {pt p}"
+  | .L a p => s!"{l 'L' a} {pt p}"
+  | .H a x => s!"{l 'H' a} {showRat x}"
+  | .V a y => s!"{l 'V' a} {showRat y}"
+  | .C a c1 c2 p => s!"{l 'C' a} {pt c1} {pt c2} {pt p}"
+  | .Sm a c2 p => s!"{l 'S' a} {pt c2} {pt p}"
+  | .Q a c1 p => s!"{l 'Q' a} {pt c1} {pt p}"
+  | .T a p => s!"{l 'T' a} {pt p}"
+  | .A a r rot lg sw p => s!"{l 'A' a} {pt r} {showRat rot} {showRat lg} {showRat sw} {pt p}"
+  | .Z => "cZ"
+
+open SvgVerif.Model.Serializer in
+def runDToks (ws : List String) : String :=
+  match splitBar ws with
+  | [[us, uc, rel], segws] =>
+    let segs := (" ".intercalate segws).splitOn ";" |>.map words |>.filter (· ≠ [])
+    match segs.mapM parseSegWords with
+    | some segs =>
+      let o : Opts := ⟨us == "1", uc == "1", rel == "1"⟩
+      let cs := dCmds o segs
+      -- `s.lower()` in relative form also lower-cases the final Z
+      let out := " ".intercalate (cs.map showCmdToks)
+      if o.rel then out.replace "cZ" "cz" else out
+    | none => "bad-args"
+  | _ => "bad-args"
+
 def handle (cmd : String) (args : List String) : String :=
   match cmd with
   | "polyroots01" =>
@@ -283,6 +329,7 @@ def handle (cmd : String) (args : List String) : String :=
       let starts := PathOps.rot1 (res.map (·.1))
       " ".intercalate ((res.zip starts).map fun (s, nx) => if s.2 = nx then "1" else "0")
     | none => "bad-args"
+  | "dtoks" => runDToks args
   | "parse" => runParse false args
   | "parse_legacy" => runParse true args
   | "lex" => runLex args
